@@ -64,6 +64,13 @@ CLAIMED = {
         "The batch_size=1 call is the reference (its correctness is C04/C07/C09); Poisson compared at 5e-3, excitation at 2e-2 (SCS bisection).",
         "DESIGN.md section 6 C05",
     ),
+    "C06": (
+        "Hypothesis property-based testing with constructed interior/facet/face/vertex/outside targets against 2n HiGHS extent LPs, BVLS and direct substitution of every spaced solution",
+        "Generated under-determined systems (2-4 receptors, 1-3 surplus sources, lb zero/positive, K, baseline) x targets inside, on every kind of boundary face and outside; "
+        "extents compared with LP optima (1e-7 of the range), all spaced solutions substituted back, error modes raise/warn/ignore checked against the best fit.",
+        "Trusts HiGHS LP optima and BVLS; a boundary target may be rejected only if its LP margin is below 1e-9.",
+        "DESIGN.md section 6 C06",
+    ),
 }
 
 PENDING_REASON = "check not built yet in this revision (planned, see DESIGN.md section 6); not claimed until its check runs quietly on the unchanged tree"
